@@ -16,7 +16,7 @@ import (
 )
 
 type jop struct {
-	T      string      `json:"t"` // merge | replace | replacemany | split | splitsv | splitsvs
+	T      string      `json:"t"` // merge | replace | replacemany | split | splitsv | splitsvs | down
 	Target uint64      `json:"target,omitempty"`
 	New    uint64      `json:"new,omitempty"`
 	Remain uint64      `json:"remain,omitempty"`
@@ -24,6 +24,7 @@ type jop struct {
 	Map    [][2]uint64 `json:"map,omitempty"`
 	RLEs   [][4]int32  `json:"rles,omitempty"`
 	SV     [][3]uint64 `json:"sv,omitempty"` // label, split, remain
+	Octs   [][]blk.Paint `json:"octs,omitempty"` // down: eight octant arrays, null = nil octant
 }
 
 type jcase struct {
@@ -32,6 +33,7 @@ type jcase struct {
 	Paints []blk.Paint `json:"paints"`
 	BC     [3]int32    `json:"bc"`
 	Ops    []jop       `json:"ops"`
+	Sparse bool        `json:"sparse,omitempty"` // start from a block whose all-zero sub-blocks are uninitialised (built from bytes)
 }
 
 func hx(b []byte) string { return `(hx "` + hex.EncodeToString(b) + `"%string)` }
@@ -66,6 +68,16 @@ func coqOp(o jop) string {
 			ss[i] = fmt.Sprintf("(%d,(%d,%d))", e[0], e[1], e[2])
 		}
 		return fmt.Sprintf("OSplitSVs %s [%s]", coqRLEs(o.RLEs), strings.Join(ss, ";"))
+	case "down":
+		ss := make([]string, len(o.Octs))
+		for i, ps := range o.Octs {
+			if ps == nil {
+				ss[i] = "None"
+			} else {
+				ss[i] = "(Some " + blk.CoqPaints(ps) + ")"
+			}
+		}
+		return "ODown [" + strings.Join(ss, "; ") + "]"
 	}
 	return "?"
 }
@@ -110,6 +122,23 @@ func runOp(b *labels.Block, bc [3]int32, o jop) (cls string, nb *labels.Block, n
 				m[e[0]] = labels.SVSplit{Split: e[1], Remain: e[2]}
 			}
 			nb, err = pb.SplitSupervoxels(toRLEs(o.RLEs), m)
+		case "down":
+			var octs [8]*labels.Block
+			for i, ps := range o.Octs {
+				if ps == nil {
+					continue
+				}
+				sz := b.Size
+				if octs[i], err = labels.MakeBlock(blk.ToBytes(blk.Expand(int(sz[0]), int(sz[1]), int(sz[2]), ps)), sz); err != nil {
+					break
+				}
+			}
+			if err == nil {
+				tmp := *b // Downres rewrites its receiver
+				if err = tmp.Downres(octs); err == nil {
+					nb = &tmp
+				}
+			}
 		}
 		if err != nil {
 			cls = "err"
@@ -135,7 +164,16 @@ func main() {
 		cls0 := "ok"
 		p, _ := lib.Recover(func() {
 			var err error
-			b, err = labels.MakeBlock(blk.ToBytes(arr), dvid.Point3d{int32(8 * c.G[0]), int32(8 * c.G[1]), int32(8 * c.G[2])})
+			if tbl := blk.SparseTable(arr, c.G); c.Sparse && len(tbl) >= 2 {
+				// a client-made block: the format allows sub-blocks with no labels (all voxels 0)
+				nb := new(labels.Block)
+				if err = nb.UnmarshalBinary(blk.SparseEncode(arr, c.G, tbl)); err == nil {
+					b = nb
+					run.Count("chain:start:sparse-block")
+				}
+			} else {
+				b, err = labels.MakeBlock(blk.ToBytes(arr), dvid.Point3d{int32(8 * c.G[0]), int32(8 * c.G[1]), int32(8 * c.G[2])})
+			}
 			if err != nil {
 				cls0 = "err"
 			}
@@ -238,6 +276,27 @@ func main() {
 	addChain(jcase{Kind: "chain", G: [3]int{3, 3, 3}, Paints: []blk.Paint{blk.Hash([6]int{0, 0, 0, 24, 24, 24}, 4, 7, []uint64{1, 2, 3, 4})},
 		Ops: []jop{{T: "merge", Target: 1, Merged: []uint64{2}}, {T: "merge", Target: 50, Merged: []uint64{3}}, {T: "replace", Target: 1, New: 9},
 			{T: "replacemany", Map: [][2]uint64{{9, 4}, {4, 9}}}, {T: "split", Target: 4, New: 77, RLEs: [][4]int32{{0, 0, 0, 24}, {5, 3, 20, 10}}}}})
+	// Downres onto a non-empty receiver that is the output of earlier operations: nil octants, a solid
+	// label-0 octant, a solid non-zero octant and a multi-label octant
+	{
+		octs := make([][]blk.Paint, 8)
+		octs[1] = []blk.Paint{blk.Fill(0)}
+		octs[2] = []blk.Paint{blk.Fill(6)}
+		octs[7] = []blk.Paint{blk.Hash(full, 2, 11, []uint64{0, 1, 8})}
+		addChain(jcase{Kind: "chain", G: g2, Paints: []blk.Paint{blk.Hash(full, 2, 5, []uint64{1, 2, 3})},
+			Ops: []jop{{T: "merge", Target: 1, Merged: []uint64{2}}, {T: "down", Octs: octs}, {T: "replace", Target: 1, New: 4}}})
+	}
+	// SplitSupervoxels: three affected supervoxels, the runs reach only one of them (and none of them)
+	addChain(jcase{Kind: "chain", G: g2, Paints: []blk.Paint{blk.Fill(1), blk.Box([6]int{0, 0, 8, 16, 16, 12}, 2), blk.Box([6]int{0, 0, 12, 16, 16, 16}, 3)},
+		Ops: []jop{{T: "splitsvs", RLEs: [][4]int32{{0, 0, 0, 16}, {2, 5, 1, 9}}, SV: [][3]uint64{{1, 11, 21}, {2, 12, 22}, {3, 13, 23}}},
+			{T: "splitsvs", RLEs: nil, SV: [][3]uint64{{21, 31, 41}, {22, 32, 42}}}}})
+	// every entry of the label table takes part in the merge (target present / absent), on an encoder-made
+	// block and on a client-made block with uninitialised sub-blocks (their voxels are 0 and stay 0)
+	for _, sparse := range []bool{false, true} {
+		ps := []blk.Paint{blk.Fill(0), blk.Cyc([6]int{0, 0, 0, 8, 16, 16}, 1, 1, 3)}
+		addChain(jcase{Kind: "chain", G: g2, Paints: ps, Sparse: sparse, Ops: []jop{{T: "merge", Target: 1, Merged: []uint64{2, 3}}, {T: "replace", Target: 1, New: 5}}})
+		addChain(jcase{Kind: "chain", G: g2, Paints: ps, Sparse: sparse, Ops: []jop{{T: "merge", Target: 9, Merged: []uint64{1, 2, 3}}, {T: "replace", Target: 0, New: 5}}})
+	}
 	// solid block through every table-level operation
 	addChain(jcase{Kind: "chain", G: g2, Paints: []blk.Paint{blk.Fill(4)}, Ops: []jop{
 		{T: "replace", Target: 4, New: 8}, {T: "merge", Target: 2, Merged: []uint64{8}}, {T: "replacemany", Map: [][2]uint64{{2, 3}}},
@@ -315,6 +374,35 @@ func main() {
 				ops = append(ops, jop{T: "replace", Target: 0, New: uint64(900 + j)})
 				continue
 			}
+			if j > 0 && rng.Chance(0.12) {
+				octs := make([][]blk.Paint, 8)
+				for q := range octs {
+					switch rng.Intn(8) {
+					case 0:
+						octs[q] = []blk.Paint{blk.Fill(0)}
+					case 1:
+						octs[q] = []blk.Paint{blk.Fill(pal[rng.Intn(npal)])}
+					case 2:
+						octs[q] = []blk.Paint{blk.Hash(full, uint64(rng.Pick(1, 2)), uint64(rng.Intn(1<<16)), []uint64{0, pal[0], 31})}
+					}
+				}
+				ops = append(ops, jop{T: "down", Octs: octs})
+				continue
+			}
+			if rng.Chance(0.15) {
+				// several supervoxels of the block are split; the runs reach only some of them
+				var sv [][3]uint64
+				seen := map[uint64]bool{}
+				for q := 0; q < 2+rng.Intn(2); q++ {
+					l := pal[rng.Intn(npal)]
+					if !seen[l] {
+						seen[l] = true
+						sv = append(sv, [3]uint64{l, uint64(700 + 10*j + q), uint64(800 + 10*j + q)})
+					}
+				}
+				ops = append(ops, jop{T: "splitsvs", RLEs: randRLEs(), SV: sv})
+				continue
+			}
 			switch rng.Intn(7) {
 			case 0, 1:
 				m := []uint64{pickLabel()}
@@ -360,7 +448,13 @@ func main() {
 				}
 			}
 		}
-		addChain(jcase{Kind: "chain", G: g2, Paints: ps, BC: bc, Ops: ops})
+		sparse := false
+		if rng.Chance(0.25) {
+			// an all-zero slab: its sub-blocks are left uninitialised in a client-made block
+			ps = append(ps, blk.Box([6]int{0, 0, 0, 16, 16, 8}, 0))
+			sparse = true
+		}
+		addChain(jcase{Kind: "chain", G: g2, Paints: ps, BC: bc, Ops: ops, Sparse: sparse})
 	}
 
 	run.Finish("c10case",
